@@ -505,6 +505,11 @@ def run(ctx):
     ctx.borrow("C03", ["R03.2"], "R14.6", "match_path walks to the parent whenever the node found does not decide")
 
 
+    ctx.rule("R14.7", "the patterns of a nested ignore file are rooted at that file's own directory when they join the walk's filter (anchored patterns prune the right directories)")
+    ctx.borrow("C03", ["R03.5"], "R14.7", "per-directory grouping of add_file")
+
+
+
 def classify_iter(it):
     """(class, effect) of one iteration of the directory-entry loop in visit_path"""
     evs = list(it)
@@ -542,6 +547,3 @@ def classify_iter(it):
     if extra:
         cls = cls + "+cond(" + ";".join("%s=%s" % (b[1][:80], b[2]) for b in extra) + ")"
     return (cls, effect)
-
-    ctx.rule("R14.7", "the patterns of a nested ignore file are rooted at that file's own directory when they join the walk's filter (anchored patterns prune the right directories)")
-    ctx.borrow("C03", ["R03.5"], "R14.7", "per-directory grouping of add_file")
